@@ -452,5 +452,198 @@ Definition ops_C02_rle : list opdef := [
   {| op_name := "bitmap.IndexSelect32R64/rle"; op_run := c02_rle_index; op_spec := fun_spec c02_rle_index |}
 ].
 
+(** * widened: the UNEXPORTED select helpers (select32single, indexSelectU64, selectU64Indexed, the table itself),
+      reached through the build-tag-guarded hook file bitmap/verif_export.go.  Model/SelectU64.v, Spec/SelectU64Spec.v. *)
+From Low Require Import Model.SelectU64 Spec.SelectU64Spec.
+
+(** select32single with the index built by IndexSelect32(words); any int32 [i] is in the model's domain *)
+Definition c02u_single_run (ws : list Z) (i : Z) : val :=
+  match IndexSelect32 ws with
+  | Some sidx => match select32single ws sidx i with Some p => VZ p | None => VPanic end
+  | None => VPanic
+  end.
+
+Definition c02u_u64b (w : Z) : bool := (0 <=? w) && (w <? 2 ^ 64).
+
+Definition c02u_rle_single (a : list val) : val :=
+  match a with
+  | [runs; i] => match c02_as_runs runs, as_z i with
+      | Some runs, Some i =>
+          if c02_runs_okb runs then
+            match lin_Select (c02_expand_rle runs) i with
+            | Some p => VZ (fst p)
+            | None => VBad   (* i outside [0, number of 1-bits) *)
+            end
+          else VBad
+      | _, _ => VBad end
+  | _ => VBad
+  end.
+
+Definition ops_C02_u64 : list opdef := [
+  (* inside the domain 0 <= i < number of 1-bits: the position of the i-th 1-bit *)
+  {| op_name := "bitmap.select32single";
+     op_run := fun a => match a with
+       | [ws; i] => match as_zs ws, as_z i with
+           | Some ws, Some i => if c02_in_range ws i then c02u_single_run ws i else VBad
+           | _, _ => VBad end
+       | _ => VBad end;
+     op_spec := fun_spec (fun a => match a with
+       | [ws; i] => match as_zs ws, as_z i with
+           | Some ws, Some i => VZ (fst (spec_Select ws i)) | _, _ => VBad end
+       | _ => VBad end) |};
+  (* the two sentinels the code returns outside it: -1 for i < 0, 64*len for i >= number of 1-bits *)
+  {| op_name := "bitmap.select32single/sentinel";
+     op_run := fun a => match a with
+       | [ws; i] => match as_zs ws, as_z i with
+           | Some ws, Some i => if c02_in_range ws i then VBad else c02u_single_run ws i
+           | _, _ => VBad end
+       | _ => VBad end;
+     op_spec := fun_spec (fun a => match a with
+       | [ws; i] => match as_zs ws, as_z i with
+           | Some ws, Some i => VZ (spec_select32single ws i) | _, _ => VBad end
+       | _ => VBad end) |};
+  (* [select32single(ws, idx, i); Select32(ws, idx, i)] with the same index: the single result is Select32's first *)
+  {| op_name := "bitmap.select32single/Select32";
+     op_run := fun a => match a with
+       | [ws; i] => match as_zs ws, as_z i with
+           | Some ws, Some i =>
+               if c02_in_range ws i then
+                 match IndexSelect32 ws with
+                 | Some sidx =>
+                     match select32single ws sidx i, Select32 ws sidx i with
+                     | Some s, Some (x, y) => VL [VZ s; VZ x; VZ y]
+                     | _, _ => VPanic
+                     end
+                 | None => VPanic
+                 end
+               else VBad
+           | _, _ => VBad end
+       | _ => VBad end;
+     op_spec := fun_spec (fun a => match a with
+       | [ws; i] => match as_zs ws, as_z i with
+           | Some ws, Some i => let p := spec_Select ws i in VL [VZ (fst p); VZ (fst p); VZ (snd p)]
+           | _, _ => VBad end
+       | _ => VBad end) |};
+  (* very large run-length encoded bitmaps, judged by the linear evaluator (see ops_C02_rle) *)
+  {| op_name := "bitmap.select32single/rle"; op_run := c02u_rle_single; op_spec := fun_spec c02u_rle_single |};
+  (* the packed index of one word *)
+  {| op_name := "bitmap.indexSelectU64";
+     op_run := fun a => match a with
+       | [w] => match as_z w with
+           | Some w => if c02u_u64b w then VZ (indexSelectU64 w) else VBad
+           | None => VBad end
+       | _ => VBad end;
+     op_spec := fun_spec (fun a => match a with
+       | [w] => match as_z w with Some w => VZ (spec_indexSelectU64 w) | None => VBad end
+       | _ => VBad end) |};
+  (* selectU64Indexed(w, indexSelectU64(w), k) for k < number of 1-bits of w: [position, second result] *)
+  {| op_name := "bitmap.selectU64Indexed";
+     op_run := fun a => match a with
+       | [w; k] => match as_z w, as_z k with
+           | Some w, Some k =>
+               if c02u_u64b w && (0 <=? k) && (k <? popcount w) then
+                 match selectU64Indexed w (indexSelectU64 w) k with
+                 | Some p => c02_pair p
+                 | None => VPanic
+                 end
+               else VBad
+           | _, _ => VBad end
+       | _ => VBad end;
+     op_spec := fun_spec (fun a => match a with
+       | [w; k] => match as_z w, as_z k with
+           | Some w, Some k => c02_pair (spec_selectU64 w k) | _, _ => VBad end
+       | _ => VBad end) |};
+  (* [selectU64Indexed(w, indexSelectU64(w), k) position; Select32([w], IndexSelect32([w]), k) first]: the two
+     in-word searches agree *)
+  {| op_name := "bitmap.selectU64Indexed/Select32";
+     op_run := fun a => match a with
+       | [w; k] => match as_z w, as_z k with
+           | Some w, Some k =>
+               if c02u_u64b w && (0 <=? k) && (k <? popcount w) then
+                 match selectU64Indexed w (indexSelectU64 w) k, IndexSelect32 [w] with
+                 | Some (p, _), Some sidx =>
+                     match Select32 [w] sidx k with
+                     | Some (x, _) => VL [VZ p; VZ x]
+                     | None => VPanic
+                     end
+                 | _, _ => VPanic
+                 end
+               else VBad
+           | _, _ => VBad end
+       | _ => VBad end;
+     op_spec := fun_spec (fun a => match a with
+       | [w; k] => match as_z w, as_z k with
+           | Some w, Some k => let p := fst (spec_selectU64 w k) in VL [VZ p; VZ p] | _, _ => VBad end
+       | _ => VBad end) |};
+  (* row b of the byte table select8Lookup (8 entries), as the package initialised it *)
+  {| op_name := "bitmap.select8Lookup/row";
+     op_run := fun a => match a with
+       | [b] => match as_z b with
+           | Some b => if (0 <=? b) && (b <? 256) then vzs (firstn 8 (skipn (Z.to_nat (8 * b)) select8Lookup)) else VBad
+           | None => VBad end
+       | _ => VBad end;
+     op_spec := fun_spec (fun a => match a with
+       | [b] => match as_z b with Some b => vzs (spec_select8_row b) | None => VBad end
+       | _ => VBad end) |}
+].
+
+(** * session on ONE held word buffer (seeded change C02-c02c-m1: a global "sequential access" hint keyed on the buffer's
+      address): args = [ws; steps], step [0; i] = Select32R64(buf, current indexes, i), step [1; k; x] = buf[k] = x in place
+      followed by IndexSelect32R64(buf) (the indexes every later query uses).  Observed: one value per step ([a; b] / 0). *)
+Fixpoint c02_set_word (ws : list Z) (k : nat) (x : Z) : list Z :=
+  match ws, k with
+  | [], _ => []
+  | _ :: t, O => x :: t
+  | w :: t, S k' => w :: c02_set_word t k' x
+  end.
+
+(** a step: [0; i] = query, [1; k; x] = write word k *)
+Definition c02_parse_step (v : val) : option (Z + Z * Z) :=
+  match v with
+  | VL [VZ 0; VZ i] => Some (inl i)
+  | VL [VZ 1; VZ k; VZ x] => Some (inr (k, x))
+  | _ => None
+  end.
+
+Fixpoint c02_session_run (sel : list Z -> Z -> val) (ws : list Z) (steps : list val) : list val :=
+  match steps with
+  | [] => []
+  | st :: t =>
+      match c02_parse_step st with
+      | Some (inl i) => sel ws i :: c02_session_run sel ws t
+      | Some (inr (k, x)) =>
+          if (0 <=? k) && (k <? zlen ws) && word_okb x
+          then VZ 0 :: c02_session_run sel (c02_set_word ws (Z.to_nat k) x) t
+          else [VBad]
+      | None => [VBad]
+      end
+  end.
+
+Definition c02_session_model_sel (ws : list Z) (i : Z) : val :=
+  if c02_in_range ws i then
+    match IndexSelect32R64 ws with
+    | Some (sidx, ridx) => match Select32R64 ws sidx ridx i with Some p => c02_pair p | None => VPanic end
+    | None => VPanic
+    end
+  else VBad.
+
+Definition c02_session_spec_sel (ws : list Z) (i : Z) : val := c02_pair (spec_Select ws i).
+
+Definition c02_session (sel : list Z -> Z -> val) (a : list val) : val :=
+  match a with
+  | [ws; VL steps] => match as_zs ws with
+      | Some ws => let r := c02_session_run sel ws steps in
+                   if existsb (fun v => match v with VBad => true | _ => false end) r then VBad else VL r
+      | None => VBad end
+  | _ => VBad
+  end.
+
+Definition ops_C02_session : list opdef := [
+  {| op_name := "bitmap.Select32R64/session";
+     op_run := c02_session c02_session_model_sel;
+     op_spec := fun_spec (c02_session c02_session_spec_sel) |}
+].
+
 Definition ops_C02 : list opdef :=
-  ops_C02_base ++ ops_C02_widen ++ ops_C02_next ++ ops_C02_toarray ++ ops_C02_prev ++ ops_C02_heldidx ++ ops_C02_rle.
+  ops_C02_base ++ ops_C02_widen ++ ops_C02_next ++ ops_C02_toarray ++ ops_C02_prev ++ ops_C02_heldidx ++ ops_C02_rle
+  ++ ops_C02_u64 ++ ops_C02_session.
